@@ -121,7 +121,8 @@ func (w *World) buildRequest(ctx context.Context, rq *Rq) (*http.Request, error)
 		req.Header.Add("Cache-Control", l)
 	}
 	if rq.Range == 1 {
-		req.Header.Set("Range", "bytes=0-3")
+		// any Range field makes it a range request, whatever the unit and its spelling
+		req.Header.Set("Range", []string{"bytes=0-3", "Bytes=2-5", "BYTES=2-5", "items=2-5", "bytes=-4", "bytes=1-"}[w.rnd.Intn(6)])
 	}
 	for f, cl := range rq.Sel {
 		if cl > 0 && f < len(SelFields) {
@@ -327,6 +328,10 @@ func (r *runner) doReq(st *Step) {
 		ev["proto"] = resp.Proto
 		var body []byte
 		var berr error
+		if st.LateBody == 1 {
+			// the caller reads the body only after background work that is due has finished
+			synctest.Wait()
+		}
 		if resp.Body != nil {
 			body, berr = io.ReadAll(resp.Body)
 			resp.Body.Close()
